@@ -232,3 +232,37 @@ VH_ENTRY vh_readrules() {
 #endif
 }
 #endif
+
+#ifdef VH_STATES_CAP
+// ---- readStates, more than MAX_RULES rules in one success state: the state keeps the MAX_RULES highest-precedence rules, i.e. the WHOLE list the
+// font gives is sorted before the cap is applied.  qsort is replaced by a recorder (the sort itself is the insertion-sort model elsewhere): it must
+// be handed the state's complete list.
+static void *vh_qbase; static size_t vh_qn, vh_qcalls;
+extern "C" __attribute__((used)) void vh_qsort_rec(void *base, size_t n, size_t sz, void *cmp) { vh_qbase = base; vh_qn = n; ++vh_qcalls; (void)sz; (void)cmp; }
+#ifdef VH_NATIVE      /* native replay: the library calls libc's qsort; the executable's own definition takes its place */
+extern "C" void qsort(void *base, size_t n, size_t sz, int (*cmp)(const void *, const void *)) { vh_qsort_rec(base, n, sz, (void *)cmp); }
+#endif
+#ifndef BIGMAP
+#define BIGMAP 130
+#endif
+VH_ENTRY vh_readstates_cap() {
+  Provider *pr = &g_prov; Face *f = vh_raw_face(pr, true);
+  Pass *p = raw_pass();
+  p->m_numStates = 1; p->m_numTransition = 0; p->m_numSuccess = 1; p->m_successStart = 0; p->m_numColumns = 1; p->m_numRules = 2;
+  p->m_minPreCtxt = 0; p->m_maxPreCtxt = 0;
+  Rule *rules = vh_new<Rule>(2);
+  for (unsigned r = 0; r < 2; ++r) { ::new (rules + r) Rule(); rules[r].sort = nondet_u8() & 63; }
+  RuleEntry *map = vh_new<RuleEntry>(BIGMAP);
+  for (unsigned i = 0; i < BIGMAP; ++i) map[i].rule = &rules[nondet_u8() & 1];
+  p->m_rules = rules; p->m_ruleMap = map;
+  uint8_t *starts = vh_bytes(2), *states = vh_bytes(1), *orm = vh_bytes(4);
+  starts[0] = 0; starts[1] = 0;                                        // start state 0
+  orm[0] = 0; orm[1] = 0; orm[2] = (uint8_t)(BIGMAP >> 8); orm[3] = (uint8_t)BIGMAP;      // the one success state owns map[0..BIGMAP)
+  Error e; vh_qcalls = 0;
+  bool ok = p->readStates(starts, states, orm, *f, e);
+  ASSERT(ok, "a state with more than MAX_RULES rules is accepted (and capped)");
+  ASSERT(vh_qcalls == 1 && vh_qbase == (void *)map && vh_qn == BIGMAP, "the complete rule list of the state is sorted (then the first MAX_RULES are kept)");
+  ASSERT(p->m_states[0].rules == map && p->m_states[0].rules_end == map + (BIGMAP > FiniteStateMachine::MAX_RULES ? (unsigned)FiniteStateMachine::MAX_RULES : BIGMAP), "at most MAX_RULES rules kept");
+  VH_END();
+}
+#endif
